@@ -6,7 +6,7 @@ prove  coq/Props/C14.v (formula clauses over R for all draws / energies; tree cl
        add_children sequences).
 corr   (a) generated definitions run as OCaml floats vs the implementation under scripted
            numpy.random (model variates = implementation variates);
-       (b) hand model of _choose_secondary_fractions vs the implementation (scripted rand+poisson);
+       (b) the generated _choose_secondary_fractions vs the implementation (scripted rand+poisson streams);
        (c) hand model of Event vs the real Event class on random histories (vm_compute, exact).
 probe  the property itself on the implementation (real draws, extreme draws, sum rules,
        monotonicity, lengths, tree consistency with an independent reference tree).
@@ -26,7 +26,7 @@ from harness.common import REPO, ROOT
 sys.path.insert(0, os.path.join(ROOT, "tools"))
 
 PIN_FILE = os.path.join(ROOT, "harness", "pins", "C14.json")
-PINNED = ["GQRSInteraction._choose_secondary_fractions", "Event.__init__", "Event.add_children",
+PINNED = ["Event.__init__", "Event.add_children",
           "Event.get_children", "Event.get_parent", "Event.get_from_level", "Event.__iter__", "Event.__len__"]
 PIDS = {"nu_e": 12, "nu_e_bar": -12, "nu_mu": 14, "nu_mu_bar": -14, "nu_tau": 16, "nu_tau_bar": -16}
 MODELS = {"GQRS": "GQRSInteraction", "CTW": "CTWInteraction"}
@@ -178,17 +178,17 @@ let sec_of tbl = fun it le ei ->
 '''
 
 
-def rows_prelude(pp):
-    """OCaml definitions rows0..rows6 : the secondary tables of the implementation."""
-    out = []
-    for ei in range(7):
-        fields = []
-        for f, arr in (("mu_brems", pp._y_cum_muon_brems), ("mu_epair", pp._y_cum_muon_epair), ("mu_pn", pp._y_cum_muon_pn),
-                       ("tau_brems", pp._y_cum_tauon_brems), ("tau_epair", pp._y_cum_tauon_epair), ("tau_pn", pp._y_cum_tauon_pn),
-                       ("tau_hadrdecay", pp._y_cum_tauon_hadrdecay), ("tau_mudecay", pp._y_cum_tauon_mudecay),
-                       ("tau_edecay", pp._y_cum_tauon_edecay)):
-            fields.append("M.%s=%s" % (f, oclist([float(v) for v in arr[ei]])))
-        out.append("let rows%d = {%s}" % (ei, "; ".join(fields)))
+def tabs_prelude(pp):
+    """OCaml definition `tabs` : the SecTables record filled with the implementation's module-level tables."""
+    out, fields = [], []
+    for nm in sorted(vars(pp)):
+        if nm.startswith("_int_"):
+            out.append("let a%s = [|%s|]" % (nm, "; ".join(rx.ocf(float(v)) for v in getattr(pp, nm))))
+            fields.append("M.tab%s = (fun z -> a%s.(zint z))" % (nm, nm))
+        elif nm.startswith("_y_cum_"):
+            out.append("let a%s = [|%s|]" % (nm, "; ".join(oclist([float(v) for v in row]) for row in getattr(pp, nm))))
+            fields.append("M.tab%s = (fun z -> a%s.(zint z))" % (nm, nm))
+    out.append("let tabs = {%s}" % "; ".join(fields))
     return "\n".join(out) + "\n"
 
 
@@ -332,18 +332,19 @@ def corr_formulas(ctx, pp, escalate):
             ctx.fail("sec-crash:%s:%d:%r:%r" % (pidname, ei, nsd, us[:4]), "_choose_secondary_fractions raised %r" % (e,),
                      {"kind": "secondary", "pid": pidname, "ei": ei, "le": le, "ns": nsd, "us": us})
             continue
-        cases.append("pr2 (M.secondary_fractions rows%d %s %s %s %s)" % (ei, ocz(pid), rx.ocf(le), oclist(nsd, ocz), oclist(us)))
+        cases.append("pr2 (M.gQRS_choose_secondary_fractions %s tabs %s %s %s %s)" % (
+            mk_inter(1, pid, 1e9, 0.0, True), rx.ocf(le), ocz(ei), oclist(nsd, ocz), oclist(us)))
         meta = {"pid": pidname, "energy_index": ei, "lepton_energy": le, "ns": nsd, "us": us[:10], "consumed": s.iu}
         checks.append(("secondary_fractions", ("sec", pidname, ei, le, tuple(nsd), tuple(us)), meta, (float(em), float(had)), 1e-12, 0))
     fns = []
     for m in MODELS:
         fns += ["%s_%s" % (m, f) for f in ("choose_interaction", "choose_inelasticity", "cross_section", "total_cross_section",
                                            "interaction_length", "total_interaction_length", "choose_shower_fractions")]
-    fns += ["secondary_fractions", "mkInter", "mkRows"]
+    fns += ["GQRS_choose_secondary_fractions", "mkInter", "mkSecTables"]
     old = rx.OCAML_PRELUDE
-    rx.OCAML_PRELUDE = old + OCAML_EXTRA + rows_prelude(pp)
+    rx.OCAML_PRELUDE = old + OCAML_EXTRA + tabs_prelude(pp)
     try:
-        res = rx.run(ctx, "From PyrexGen Require Import Gen_particle.\nFrom PyrexModel Require Import Secondaries.", fns, cases, name="particle")
+        res = rx.run(ctx, "From PyrexGen Require Import Gen_particle.", fns, cases, name="particle")
     finally:
         rx.OCAML_PRELUDE = old
     bad = {}
@@ -697,7 +698,7 @@ def probes(ctx, pp, heavy):
         for pidname in PIDS:
             for kind in ("cc", "nc", None):
                 for secondaries in (True, False):
-                    for energy in (1e3, 1e6, 3.3e7, 1e9, 1e12):
+                    for energy in ((1e3, 1e6, 3.3e7, 1e9, 1e12) if ctx.thorough else (1e3, 3.3e7, 1e12)):
                         for u0 in ext:
                             for u1 in ext:
                                 us = [u0, u1, rng.choice(ext)] + [rng.choice(ext + [rng.random()]) for _ in range(60)]
@@ -853,6 +854,122 @@ def distribution_probes(ctx, pp):
                                       "us_full": [u1, r, 0.5, 0.5], "ns_full": []})
 
 
+
+# ---------------------------------------------------------------------------- supplementary statistics (thorough tier)
+def published_cdf(model, low, kind, pid, eps, y):
+    """Cumulative distribution of the inelasticity, integrated analytically from the published densities
+    (typed here independently of the source): CTW 2011 eqs. 14-18 per region, GQRS as in icemc."""
+    if model == "GQRS":
+        return 1 - (math.exp(-y ** 0.4) - 1 / math.e) / (1 - 1 / math.e)
+    c1 = ctw_c1(low, kind, pid, eps)
+    if low:
+        pw = 1 - 1 / (2.55 - 0.0949 * eps)
+        return ((y - c1) ** pw - (0.0 - c1) ** pw) / ((1e-3 - c1) ** pw - (0.0 - c1) ** pw)
+    return math.log((y - c1) / (1e-3 - c1)) / math.log((1 - c1) / (1e-3 - c1))
+
+
+def ks_distance(ys, F):
+    ys = sorted(ys)
+    n = len(ys)
+    d = 0.0
+    for i, y in enumerate(ys):
+        f = F(y)
+        d = max(d, abs(f - i / n), abs(f - (i + 1) / n))
+    return d
+
+
+def ks_sample(pp, spec, n, seed):
+    """n values of choose_inelasticity / choose_interaction with uniform variates from a seeded generator."""
+    rs = np.random.RandomState(seed)
+    cls = getattr(pp, MODELS[spec["model"]])
+    with Script([0.5] * 8, [0] * 8):
+        p = pp.Particle(spec["pid"], (0, 0, 0), (0, 0, 1), spec["energy"], interaction_model=model_class(pp, spec["model"], False),
+                        interaction_type=spec.get("kind", "cc"))
+    inter = p.interaction
+    r = rs.random_sample(2 * n)
+    if spec["what"] == "inelasticity" and spec["model"] == "CTW" and spec.get("u1") is not None:
+        r[0::2] = spec["u1"]
+    it = iter(r.tolist())
+    out = []
+    with mock.patch("numpy.random.rand", lambda: next(it)):
+        if spec["what"] == "inelasticity":
+            for _ in range(n):
+                out.append(float(inter.choose_inelasticity()))
+                if spec["model"] == "GQRS":
+                    next(it)
+        else:
+            for _ in range(n):
+                out.append(int(inter.choose_interaction().value))
+                next(it)
+    return out
+
+
+def ks_specs():
+    specs = []
+    for pid in ("nu_mu", "nu_mu_bar"):
+        for kind in ("cc", "nc"):
+            for energy in (1e6, 1e9, 1e12):
+                for u1 in (0.0, 0.999):
+                    specs.append({"what": "inelasticity", "model": "CTW", "pid": pid, "kind": kind, "energy": energy, "u1": u1})
+    for energy in (1e6, 1e9, 1e12):
+        specs.append({"what": "low_fraction", "model": "CTW", "pid": "nu_e", "kind": "cc", "energy": energy})
+    for energy in (1e4, 1e10):
+        specs.append({"what": "inelasticity", "model": "GQRS", "pid": "nu_tau", "kind": "cc", "energy": energy})
+    for model in MODELS:
+        for pid in ("nu_e", "nu_e_bar"):
+            for energy in (1e3, 1e7, 1e12):
+                specs.append({"what": "choice", "model": model, "pid": pid, "energy": energy})
+    return specs
+
+
+def ks_evaluate(pp, spec, n, seed):
+    """Returns (statistic, description) for one specification."""
+    eps = math.log10(spec["energy"])
+    pid = PIDS[spec["pid"]]
+    kind = {"cc": 1, "nc": 2}[spec.get("kind", "cc")]
+    thr = 0.128 * math.sin(-0.197 * (eps - 21.8))
+    if spec["what"] == "inelasticity":
+        ys = ks_sample(pp, spec, n, seed)
+        if spec["model"] == "GQRS":
+            return ks_distance(ys, lambda y: published_cdf("GQRS", False, kind, pid, eps, y)), "KS distance to the GQRS distribution"
+        low = spec["u1"] < thr
+        lo, hi = (0.0, 1e-3) if low else (1e-3, 1.0)
+        if any(not (lo <= y <= hi) for y in ys):
+            return 1.0, "a sample lies outside the %s-y region" % ("low" if low else "high")
+        return (ks_distance(ys, lambda y: published_cdf("CTW", low, kind, pid, eps, y)),
+                "KS distance to the published %s-y distribution (CTW eqs. 14-18)" % ("low" if low else "high"))
+    if spec["what"] == "low_fraction":
+        ys = ks_sample(pp, dict(spec, what="inelasticity", u1=None), n, seed)
+        frac = sum(1 for y in ys if y <= 1e-3) / n
+        return abs(frac - max(thr, 0.0)), "|frequency of the low-y region - 0.128 sin(-0.197 (eps - 21.8))| (frequency %.4f)" % frac
+    ks = ks_sample(pp, spec, n, seed)
+    frac = sum(1 for k in ks if k == 2) / n
+    want = (1 - 0.6865254) if spec["model"] == "GQRS" else 0.252162 + 0.0256 * math.log(eps - 1.76)
+    return abs(frac - want), "|neutral-current frequency - published fraction %.4f| (frequency %.4f)" % (want, frac)
+
+
+def ks_probes(ctx, pp):
+    """Supplementary, thorough tier only.  Dvoretzky-Kiefer-Wolfowitz / Hoeffding: for n i.i.d. uniform
+    variates P(statistic > e) <= 2 exp(-2 n e^2); with T tests and e = sqrt(ln(2 T / 1e-9) / (2 n)) the
+    false-alarm probability of the whole probe is below 1e-9 per run.  Seeds are scripted (VERIF_SEED)."""
+    specs = ks_specs()
+    n = 20000
+    bound = math.sqrt(math.log(2 * len(specs) / 1e-9) / (2 * n))
+    worst = 0.0
+    for k, spec in enumerate(specs):
+        seed = (ctx.seed * 1000003 + k) % (2 ** 32)
+        stat, what = ks_evaluate(pp, spec, n, seed)
+        worst = max(worst, stat)
+        ctx.case(key=("ks", json.dumps(spec, sort_keys=True)), nontrivial=True)
+        if stat > bound:
+            ctx.fail("ks:%s" % json.dumps(spec, sort_keys=True),
+                     "statistical evidence (n=%d seeded draws, false-alarm probability < 1e-9 per run): %s = %.4f exceeds %.4f for %s" % (
+                         n, what, stat, bound, json.dumps(spec)),
+                     {"kind": "ks", "spec": spec, "n": n, "seed": seed, "bound": bound, "statistic": stat})
+    ctx.extra["ks_probe"] = {"tests": len(specs), "n": n, "bound": round(bound, 5), "largest_statistic": round(worst, 5),
+                             "false_alarm_probability_per_run": "< 1e-9 (DKW / Hoeffding, union bound)"}
+
+
 # ---------------------------------------------------------------------------- entry points
 def run(ctx):
     import pyrex.particle as pp
@@ -863,7 +980,7 @@ def run(ctx):
     ctx.trusted += ["Coq 8.16.1 kernel; Coquelicot (is_derive)",
                     "tools/py2coq.py + tools/gen_particle.py (translator: meaning of the NumPy whitelist, raise -> option, retry loop -> retry_loop, enum values read from the class bodies)",
                     "harness/realextract.py extraction directives (R -> OCaml float), used for the correspondence only",
-                    "Model/Secondaries.v and Model/EventTree.v are hand-written: pinned by AST hash, validated by correspondence"]
+                    "Model/EventTree.v is hand-written: pinned by AST hash, validated by exact correspondence"]
     ctx.assumptions += ["theorems are over the real numbers; binary64 rounding is covered by the numeric correspondence and the probes only",
                         "numpy.random.rand() returns values in [0,1); numpy.random.poisson returns non-negative integers (opaque draws)",
                         "1000 consecutive rejected secondary draws make choose_shower_fractions return None (Interaction.__init__ then raises TypeError): "
@@ -875,7 +992,7 @@ def run(ctx):
     recorded = json.load(open(PIN_FILE)) if os.path.exists(PIN_FILE) else {}
     changed = [k for k in pins if recorded.get(k) != pins[k]]
     ctx.extra["pins"] = {"current": pins, "changed_since_validation": changed}
-    esc_sec = any("secondary" in k for k in changed)
+    esc_sec = False
     esc_tree = any(k.startswith("Event.") for k in changed)
     gen_ok = True
     try:
@@ -913,6 +1030,9 @@ def run(ctx):
     probes(ctx, pp, heavy=(not ok) or ctx.thorough or bool(changed))
     distribution_probes(ctx, pp)
     lap("probes")
+    if ctx.thorough:
+        ks_probes(ctx, pp)
+        lap("ks_probes")
 
 
 def replay(ctx, obj):
@@ -936,6 +1056,10 @@ def replay(ctx, obj):
                 break
         print("implementation (fresh draws):", worst)
         return 1
+    if k == "ks":
+        stat, what = ks_evaluate(pp, obj["spec"], obj["n"], obj["seed"])
+        print("implementation: %s = %.5f (bound %.5f)" % (what, stat, obj["bound"]))
+        return 1 if stat > obj["bound"] else 0
     if k == "sigma":
         for kind in ("cc", "nc"):
             cls = pp.NeutrinoInteraction if obj["model"] == "default" else getattr(pp, MODELS[obj["model"]])
